@@ -19,7 +19,9 @@ from .common import rng
 HAND = ['aborted-0-0', 'aborted-2-3', 'released', 'rejected', 'timeout', 'netdicom', 'pdu-processing',
         'dimse-processing', 'event-handling', 'class-not-supported', 'value-error', 'os-error',
         'connection-reset', 'key-error']
-NESTED = ['nested-abort', 'nested-reject', 'nested-release', 'nested-silent']
+NESTED = ['nested-abort', 'nested-reject', 'nested-release', 'nested-silent',
+          # the second association is requested from the SAME entity object and ends first
+          'nested-same-entity-abort', 'nested-same-entity-normal', 'nested-same-entity-then-error']
 REAL = ['real-timeout-propagates', 'real-timeout-caught', 'real-timeout-caught-then-echo']
 VARIANTS = HAND + NESTED + REAL
 POINTS = ['before', 'between', 'during']
@@ -139,7 +141,17 @@ def run_case(res, case, attempt=0):
             item = peer.recv_dimse()
         except tcpnet.PeerClosed:
             return
-        if variant == 'nested-abort':
+        if variant in ('nested-same-entity-normal', 'nested-same-entity-then-error'):
+            ictx, icmd = item[0], item[1]
+            echo_reply(peer, ictx, icmd)
+            try:
+                nxt = peer.recv_pdu()
+                if nxt['type'] == 5:
+                    peer.send_pdu({'type': 6})
+            except tcpnet.PeerClosed:
+                pass
+            return
+        if variant in ('nested-abort', 'nested-same-entity-abort'):
             peer.abort(2, 6)
             peer.wait_closed(3.0)
         elif variant == 'nested-release':
@@ -171,10 +183,15 @@ def run_case(res, case, attempt=0):
         if variant in HAND:
             raise make_exc(variant)
         if variant in NESTED:
-            inner_client = make_client(0.4 if variant == 'nested-silent' else 5)
+            same = 'same-entity' in variant
+            inner_client = assoc.ae if same else make_client(0.4 if variant == 'nested-silent' else 5)
             with inner_client.request_association(inner_remote) as inner:
                 state['inner'] = 'established'
                 inner.get_scu(svc.VERIFICATION)(3)
+            if variant == 'nested-same-entity-normal':
+                # the inner association is over; this one is still usable and ends normally
+                state['late'] = int(assoc.get_scu(svc.VERIFICATION)(4))
+                return
             raise Foreign('the nested association ended without an error')
         # a genuine time-out of this very association
         assoc.ae.timeout = 0.4
@@ -255,9 +272,11 @@ def run_case(res, case, attempt=0):
                 'peer_saw': peer_seen[-2:], 'acceptor_errors': [type(e).__name__ for e in server_errors]},
                limit=8)
     res.count('oracle.context-manager')
-    normal_exit = variant in ('real-timeout-caught', 'real-timeout-caught-then-echo')
+    normal_exit = variant in ('real-timeout-caught', 'real-timeout-caught-then-echo', 'nested-same-entity-normal')
     # --- the error (or its absence) the application sees
     want_type = {'nested-abort': exceptions.AssociationAbortedError,
+                 'nested-same-entity-abort': exceptions.AssociationAbortedError,
+                 'nested-same-entity-then-error': Foreign,
                  'nested-reject': exceptions.AssociationRejectedError,
                  'nested-release': exceptions.AssociationReleasedError,
                  'nested-silent': exceptions.DCMTimeoutError,
@@ -269,7 +288,7 @@ def run_case(res, case, attempt=0):
         if error is not None:
             res.violation('normal-exit-raises:after-timeout', 'C14.context-manager', '%s: %s: %s' % (
                 where, type(error).__name__, error), case)
-        if variant == 'real-timeout-caught-then-echo' and state['late'] != 0:
+        if variant in ('real-timeout-caught-then-echo', 'nested-same-entity-normal') and state['late'] != 0:
             res.violation('association-unusable-after-timeout', 'C14.context-manager',
                           '%s: the echo after the time-out returned %r' % (where, state['late']), case)
         if ends != [(5, None, None)]:
@@ -277,11 +296,12 @@ def run_case(res, case, attempt=0):
                           '%s: requestor wrote %r at the end, peer saw %r' % (where, ends, peer_seen), case)
         return
     res.count('oracle.exit-through-%s' % ('library-error' if variant not in (
-        'value-error', 'os-error', 'connection-reset', 'key-error') else 'foreign-error'))
+        'value-error', 'os-error', 'connection-reset', 'key-error', 'nested-same-entity-then-error')
+        else 'foreign-error'))
     if type(error) is not want_type:
         res.violation('error-not-propagated:exit', 'C14.context-manager', '%s: block left with %s: %s' % (
             where, type(error).__name__, error), case)
-    if variant == 'nested-abort' and isinstance(error, exceptions.AssociationAbortedError) and \
+    if variant in ('nested-abort', 'nested-same-entity-abort') and isinstance(error, exceptions.AssociationAbortedError) and \
             (error.source, error.reason_diag) != (2, 6):
         res.violation('abort-fields-altered:nested', 'C14.abort', '%s: error carries %r' % (
             where, (error.source, error.reason_diag)), case)
@@ -292,7 +312,7 @@ def run_case(res, case, attempt=0):
     if ends != [(7, 0, 0)]:
         res.violation('exceptional-exit-does-not-abort:%s' % (
             'own-timeout' if variant in REAL else 'nested' if variant in NESTED else 'library-error'
-            if want_type.__module__.startswith('pynetdicom2') else 'foreign-error'),
+            if (want_type or Foreign).__module__.startswith('pynetdicom2') else 'foreign-error'),
             'C14.context-manager', '%s: requestor wrote %r at the end of the association left through %s' % (
                 where, ends, type(error).__name__), case)
     if acceptor == 'lib':
